@@ -33,6 +33,15 @@ MapRows == {[kind |-> "maparr", t |-> t, s |-> s, path |-> <<>>, ok |-> Assignab
            \cup {[kind |-> "mapmap", t |-> t, s |-> s, path |-> <<>>, ok |-> Assignable(t, MapOf(s))]
                  : t \in Types, s \in {x \in Types : x.m = 0 /\ x.a <= 1}}
 
+(* a member projected out of the result of a mapped call: the projection is typed first,
+   then the call's dimension is added - over a typed map only if that does not nest maps *)
+MapProjRows ==
+    UNION {{[kind |-> "maparrproj", t |-> t, s |-> s, path |-> p,
+             ok |-> Assignable(t, ArrOf2(ProjType(P, s, p)))] : t \in Types, p \in PathsOf(s.b, 2)}
+           \cup {[kind |-> "mapmapproj", t |-> t, s |-> s, path |-> p,
+                  ok |-> LET pt == ProjType(P, s, p) IN pt.m = 0 /\ Assignable(t, MapOf(pt))] : t \in Types, p \in PathsOf(s.b, 2)}
+           : s \in {x \in Types : StructBase(x) /\ x.a = 0 /\ x.m = 0}}
+
 (* a call mapped over a reference: the parameter takes the element of the outer
    collection (the array, if the type is an array of typed maps) *)
 SplitRows == {[kind |-> "split", t |-> t, s |-> s, path |-> <<>>, ok |-> Assignable(t, Elem(s))]
@@ -45,6 +54,6 @@ LitRows == UNION {{[kind |-> "lit", t |-> t, v |-> v, valid |-> Valid(t, v)] : v
 ASSUME \A s \in {x \in Types : StructBase(x)} : \A p \in PathsOf(s.b, 2) :
           LET pt == ProjType(P, s, p) IN pt \in Types => Assignable(pt, pt)
 
-ASSUME ndJsonSerialize("wt_rows.ndjson", SetSeq(RefRows \cup ProjRows \cup MapRows \cup SplitRows))
+ASSUME ndJsonSerialize("wt_rows.ndjson", SetSeq(RefRows \cup ProjRows \cup MapRows \cup MapProjRows \cup SplitRows))
 ASSUME ndJsonSerialize("wt_lits.ndjson", SetSeq(LitRows))
 =============================================================================
